@@ -263,7 +263,7 @@ type fileConcDesc struct {
 // runFileConcurrent: G goroutines of one process (environments of one core, or
 // Services on the same working dir) call NewRunNumber() at once. Same oracle:
 // numbers pairwise distinct, and larger than every number returned before the
-// call was invoked. Enabled with VERIF_C07_FILE_CONCURRENT=1 only (see props.d).
+// call was invoked. On by default since fix 7a646a5 (VERIF_C07_FILE_CONCURRENT=0 leaves it out).
 func runFileConcurrent(c *vlib.Ctx, idx int64) {
 	r := c.SubRand(5_000_000 + idx)
 	d := &fileConcDesc{Idx: idx, Callers: 2 + r.Intn(7), Calls: 10 + r.Intn(31), Shared: r.Intn(2) == 0, Preset: int64(r.Intn(500))}
